@@ -8,7 +8,7 @@ Open Scope Z_scope.
 (* generic: a matrix property protected by the routine's guard holds in the final state and in every event *)
 Theorem run_routine_keeps r n R0 itr D s0 res (C : mat Z -> Prop) :
   run_routine r n R0 itr D s0 = Done res ->
-  (is_und r = true -> (forall x y, R0 x y = R0 y x) /\ (forall x, R0 x x = 0)) ->
+  (is_und r = true -> forall x y, R0 x y = R0 y x) ->
   GuardSound (is_und r) n (v_guard (variant_of r n (match D with Some D' => D' | None => ring_dist n end))) C ->
   C (pre_matrix r n R0 (r_perm res)) ->
   C (r_rp res) /\ Forall (fun ev => C (sR (snd ev))) (r_trace res).
@@ -107,7 +107,7 @@ Qed.
 Theorem run_lattice_cost r n R0 itr D s0 res :
   is_latt r = true ->
   run_routine r n R0 itr D s0 = Done res ->
-  (is_und r = true -> (forall x y, R0 x y = R0 y x) /\ (forall x, R0 x x = 0)) ->
+  (is_und r = true -> forall x y, R0 x y = R0 y x) ->
   let Dm := match D with Some D' => D' | None => ring_dist n end in
   (is_und r = true -> forall x y, Dm x y = Dm y x) ->
   let c0 := cost n Dm (pre_matrix r n R0 (r_perm res)) in
@@ -122,30 +122,40 @@ Qed.
 Lemma ring_dist_sym n x y : ring_dist n x y = ring_dist n y x.
 Proof. unfold ring_dist. rewrite Nat.min_comm. reflexivity. Qed.
 
-(* mask: no connection is ever created where the (symmetric) mask is nonzero *)
-Theorem run_partial_mask n A B maxswap s0 res :
+(* generic, for randomize_graph_partial_und: a matrix property protected by the mask guard holds in every state *)
+Theorem run_partial_keeps n A B maxswap s0 res (C : mat Z -> Prop) :
   run_partial_und n A B maxswap s0 = Done res ->
-  (forall x y, A x y = A y x) -> (forall x, A x x = 0) -> (forall x y, B x y = B y x) ->
-  MaskOK A B (r_out res) /\ Forall (fun ev => MaskOK A B (sR (snd ev))) (r_trace res).
+  (forall x y, A x y = A y x) ->
+  GuardSound true n (mask_guard B) C -> C A ->
+  C (r_out res) /\ Forall (fun ev => C (sR (snd ev))) (r_trace res).
 Proof.
-  intros H Hs Hd HBs.
+  intros H Hs GS M0.
   destruct (run_partial_unfold _ _ _ _ _ _ H) as (st0 & k & stf & s2 & Ei & Ek & It & Eo).
   assert (Es: st0 = fst (init_state ELtriu1 n A) /\ k = snd (init_state ELtriu1 n A)) by (rewrite Ei; auto).
   destruct Es as [Es Ekk].
-  assert (HI0: Inv true n k st0) by (rewrite Es, Ekk; apply (init_inv ELtriu1 n A); intros _; split; assumption).
+  assert (HI0: Inv true n k st0) by (rewrite Es, Ekk; apply (init_inv ELtriu1 n A); intros _; exact Hs).
   assert (HR0: sR st0 = A) by (rewrite Es; reflexivity).
-  assert (M0: MaskOK A B A) by (intros x y E N; contradiction).
   destruct Ek as [Ek|Ek].
   2:{ subst maxswap. assert (It': Some (st0, s0, @nil event) = Some (stf, s2, r_trace res)).
       { rewrite <- It. destruct (length s0); reflexivity. }
       injection It' as E1 E2 E3. subst stf. rewrite <- E3, Eo, HR0. split; [exact M0|apply Forall_nil]. }
   set (v := mkvar true (mask_guard B)) in *.
-  set (J := fun st : state => Inv true n k st /\ MaskOK A B (sR st)).
+  set (J := fun st : state => Inv true n k st /\ C (sR st)).
   assert (Jstep: forall st s st' s' o, J st -> attempt v k st s = Some (st', s', o) -> J st').
   { intros st s st' s' o [X Y] At. split.
     - apply (attempt_spec v n k st s st' s' o Ek X At).
-    - apply (attempt_keeps v n k st s st' s' o (MaskOK A B) Ek (mask_GuardSound n A B HBs) X Y At). }
+    - apply (attempt_keeps v n k st s st' s' o C Ek GS X Y At). }
   assert (J0: J st0) by (split; [exact HI0|rewrite HR0; exact M0]).
   destruct (until_J v k J Jstep _ _ _ _ _ _ _ _ J0 (Forall_nil _) It) as [[_ B1] B2].
   split; [rewrite Eo; exact B1|]. eapply Forall_impl; [|exact B2]. intros ev [_ X]. exact X.
+Qed.
+
+(* mask: no connection is ever created where the (symmetric) mask is nonzero *)
+Theorem run_partial_mask n A B maxswap s0 res :
+  run_partial_und n A B maxswap s0 = Done res ->
+  (forall x y, A x y = A y x) -> (forall x y, B x y = B y x) ->
+  MaskOK A B (r_out res) /\ Forall (fun ev => MaskOK A B (sR (snd ev))) (r_trace res).
+Proof.
+  intros H Hs HBs. apply (run_partial_keeps n A B maxswap s0 res (MaskOK A B) H Hs (mask_GuardSound n A B HBs)).
+  intros x y E N. contradiction.
 Qed.
